@@ -110,6 +110,14 @@ struct LcSim : Harness {
 
   // ------------------------------------------------------------------------------------------ externals
   std::vector<prog::ExtCall> ext_log; std::map<int64_t, void *> reenter_addr; int ext_depth = 0;
+  // Each simulated task registers its own copy of the external (same behaviour, different address): a call that arrives at
+  // another task's copy was bound through state that is not the context's.
+  int ext_variant = 0;
+  template <int K> static int64_t ext_v(int64_t tag, int64_t v) {
+    if (g_self && g_self->ext_variant != K && g_self->cur_out) g_self->cur_out->fail("foreign_external_binding", "ext", fmt("a call of the external 'ext' made by the context of task %d arrived at the address registered by task %d", g_self->ext_variant, K));
+    return ext_c(tag, v);
+  }
+  void *ext_addr() const { static void *t[] = {(void *) ext_v<0>, (void *) ext_v<1>, (void *) ext_v<2>, (void *) ext_v<3>}; return t[ext_variant & 3]; }
   static int64_t ext_c(int64_t tag, int64_t v) {
     LcSim *s = g_self; s->ext_log.push_back({tag, v}); s->clock_ticks++;
     if (g_yield_hook) { g_yield_hook(9); s = g_self; }
@@ -152,7 +160,7 @@ struct LcSim : Harness {
   std::set<std::string> resolver_names; std::map<std::string, int> resolver_k; std::vector<std::string> resolver_asked;
   static void *resolver_c(const char *name) {
     LcSim *s = g_self; s->resolver_asked.push_back(name); s->C->count("resolver_consulted");
-    if (!strcmp(name, "ext")) return (void *) ext_c;
+    if (!strcmp(name, "ext")) return s->ext_addr();
     if (!strcmp(name, "extn")) return (void *) extn_c;
     if (!strcmp(name, "extm")) return (void *) extm_c;
     if (!strcmp(name, "memset")) return (void *) memset;
@@ -244,6 +252,20 @@ struct LcSim : Harness {
     A.realloc_mode = (int) al.geti("realloc", 0); A.junk = (uint8_t) al.geti("junk", 0xA5); A.gap = (size_t) std::max<int64_t>(16, al.geti("gap", 16));
     A2.realloc_mode = A.realloc_mode; A2.junk = A.junk; A2.gap = A.gap;
     K.policy = (int) kn.geti("placement", P_PACKED_FAR); K2.policy = P_PACKED_FAR; K.spread_gap = (uint64_t) kn.geti("placement_gap", 1ll << 32);
+    if (int pi = (int) kn.geti("prelude", 0)) {
+      // an earlier context of this process: created, used (one tiny module, linked with interface pi, called once) and finished
+      // before the context of the history exists.  Whatever it leaves behind in the process is part of the history.
+      A2.reset(); K2.reset(); phase("prelude MIR_init2");
+      MIR_context_t h = MIR_init2(A2.alloc(), K2.alloc()); MIR_set_error_func(h, err_func);
+      if (pi >= 2) { MIR_gen_init(h); }
+      MIR_scan_string(h, "mp: module\n export pf\npf: func i64, i64:a\n local i64:r\n add r, a, 1\n ret r\n endfunc\n endmodule\n");
+      MIR_module_t pm = DLIST_TAIL(MIR_module_t, *MIR_get_module_list(h)); MIR_load_module(h, pm);
+      phase("prelude MIR_link"); MIR_link(h, pi == 1 ? MIR_set_interp_interface : pi == 2 ? MIR_set_gen_interface : pi == 3 ? MIR_set_lazy_gen_interface : MIR_set_lazy_bb_gen_interface, nullptr);
+      MIR_item_t pf = DLIST_TAIL(MIR_item_t, pm->items); phase("prelude call");
+      if (pf && pf->item_type == MIR_func_item && pf->addr && ((int64_t (*)(int64_t)) pf->addr)(41) != 42) { /* reported through the history's own oracles if it matters */ }
+      if (pi >= 2) MIR_gen_finish(h);
+      phase("prelude MIR_finish"); MIR_finish(h); A2.audit(true); K2.audit(true); C->count("prelude_context_lived_before");
+    }
     phase("MIR_init2");
     ctx = MIR_init2(A.alloc(), K.alloc()); user_ctx_alive = true;
     MIR_set_error_func(ctx, err_func);
@@ -423,13 +445,13 @@ struct LcSim : Harness {
     std::set<std::string> def, imp; const Json &m = prog_json->at("mods")[mi];
     for (auto &f : m.at("funcs").a) def.insert(f.gets("name"));
     if (const Json *dj = m.find("data")) for (auto &d : dj->a) def.insert(d.gets("name"));
-    for (auto &f : m.at("funcs").a) prog::walk(f.at("body"), [&](const Json &st) { if ((st[0].s == "call" || st[0].s == "icall" || st[0].s == "ldata") && !def.count(st[2].s)) imp.insert(st[2].s); });
+    for (auto &f : m.at("funcs").a) prog::walk(f.at("body"), [&](const Json &st) { if ((st[0].s == "call" || st[0].s == "icall" || st[0].s == "fcmp" || st[0].s == "ldata") && !def.count(st[2].s)) imp.insert(st[2].s); });
     return imp;
   }
   void do_link(const Json &op, Outcome &out) {
     int iface = (int) (op.size() > 1 ? op[1].num() : 1) % 5; bool use_resolver = op.size() > 2 && op[2].num() != 0;
     if ((iface >= 2) && !gen_on) { phase("MIR_gen_init"); MIR_gen_init(ctx); gen_on = true; MIR_gen_set_optimize_level(ctx, (unsigned) opt_level); }
-    if (!ext_loaded && !use_resolver && mode != "C13") { MIR_load_external(ctx, "ext", (void *) ext_c); MIR_load_external(ctx, "extn", (void *) extn_c); MIR_load_external(ctx, "extm", (void *) extm_c); MIR_load_external(ctx, "memset", (void *) memset); MIR_load_external(ctx, "memcpy", (void *) memcpy); MIR_load_external(ctx, "memmove", (void *) memmove); ext_loaded = true; }
+    if (!ext_loaded && !use_resolver && mode != "C13") { MIR_load_external(ctx, "ext", ext_addr()); MIR_load_external(ctx, "extn", (void *) extn_c); MIR_load_external(ctx, "extm", (void *) extm_c); MIR_load_external(ctx, "memset", (void *) memset); MIR_load_external(ctx, "memcpy", (void *) memcpy); MIR_load_external(ctx, "memmove", (void *) memmove); ext_loaded = true; }
     // model: bind every import of every pending module
     expect_error = -1; std::vector<std::pair<int, std::string>> newly; std::vector<int> sim_loaded; bool dontcare = false;
     for (size_t pi = 0; pi < pending.size() && expect_error < 0; pi++) { int mi = pending[pi]; for (auto &n : imports_of((size_t) mi)) {
@@ -691,15 +713,16 @@ struct LcSim : Harness {
     al.set("realloc", (int) (r.chance(1, 2) ? 0 : r.range(1, 2))); al.set("junk", (int) (r.coin() ? 0xA5 : r.coin() ? 0xFF : 0)); al.set("gap", (int) (r.coin() ? 16 : 48));
     kn.set("alloc", al); kn.set("placement", (int) (r.chance(1, 3) ? P_PACKED_FAR : r.below(4)));
     { static const long long G = 1ll << 30; static const long long gaps[] = {G, 2 * G - 8192, 2 * G + 8192, 3 * G, 4 * G - 8192, 4 * G, 4 * G + 8192, 6 * G}; kn.set("placement_gap", gaps[r.below(8)]); }
+    if (r.chance(1, 8)) kn.set("prelude", (int) r.range(1, 4));  // a context that lived and was finished earlier in this process (interface of its one link step)
     prog::GenOpts go; go.nmods = (int) r.range(1, 3); go.nfuncs = (int) r.range(1, 3); go.body = (int) r.range(3, 7);
     bool big = r.chance(1, 6);   // large bodies: code that spans pages, many switch tables (absolute-address relocations)
     if (big) { go.body = (int) r.range(20, 70); go.nfuncs = (int) r.range(2, 5); }
     // swarm: feature subset per run
-    go.lref = r.chance(1, 2); go.jt = r.chance(1, 2); go.sw = r.chance(2, 3); go.icall = r.chance(1, 2); go.ext = r.chance(2, 3); go.mem = r.chance(1, 2); go.loops = r.chance(2, 3); go.doubles = r.chance(1, 3); go.recursion = r.chance(1, 2); go.extn = r.chance(1, 4); go.wide = r.chance(1, 8); go.typed = r.chance(2, 5); go.extm = r.chance(1, 4); go.blocks = r.chance(2, 3);
+    go.lref = r.chance(1, 2); go.jt = r.chance(1, 2); go.sw = r.chance(2, 3); go.icall = r.chance(1, 2); go.ext = r.chance(2, 3); go.mem = r.chance(1, 2); go.loops = r.chance(2, 3); go.doubles = r.chance(1, 3); go.recursion = r.chance(1, 2); go.extn = r.chance(1, 4); go.wide = r.chance(1, 8); go.typed = r.chance(2, 5); go.extm = r.chance(1, 4); go.blocks = r.chance(2, 3); go.fcmp = r.chance(1, 2);
     if (big) { go.sw = true; go.sw_weight = 30; go.recursion = false; }
     go.blocked = r.coin();
     prog::Generator g(r, go); Json prog = g.program(); prog::protect_fuel(prog);
-    for (auto &mo : prog["mods"].a) { mo.set("fwd_first", (int) r.coin()); mo.set("rev", (int) r.coin()); mo.set("cmacros", (int) r.coin()); mo.set("cdecls", (int) r.coin()); mo.set("fwd_after", (int) r.chance(1, 4)); }
+    for (auto &mo : prog["mods"].a) { mo.set("fwd_first", (int) r.coin()); mo.set("rev", (int) r.coin()); mo.set("cmacros", (int) r.coin()); mo.set("cdecls", (int) r.coin()); mo.set("fwd_after", (int) r.chance(1, 4)); mo.set("inl", (int) r.chance(1, 3)); }
     Json ops = Json::array(); size_t nm = prog.at("mods").size();
     auto push = [&](std::initializer_list<Json> l) { Json o = Json::array(); for (auto &x : l) o.push(x); ops.push(o); };
     std::vector<std::string> names; for (auto &mo : prog.at("mods").a) for (auto &f : mo.at("funcs").a) names.push_back(f.gets("name"));
@@ -707,7 +730,7 @@ struct LcSim : Harness {
     // link steps: each step creates, loads and links a dependency-closed set of modules with its own interface
     std::vector<std::set<size_t>> deps(nm); std::map<std::string, size_t> defmod;
     for (size_t mi = 0; mi < nm; mi++) for (auto &f : prog.at("mods")[mi].at("funcs").a) defmod[f.gets("name")] = mi;
-    for (size_t mi = 0; mi < nm; mi++) for (auto &f : prog.at("mods")[mi].at("funcs").a) prog::walk(f.at("body"), [&](const Json &st) { if (st[0].s == "call" || st[0].s == "icall") deps[mi].insert(defmod[st[2].s]); });
+    for (size_t mi = 0; mi < nm; mi++) for (auto &f : prog.at("mods")[mi].at("funcs").a) prog::walk(f.at("body"), [&](const Json &st) { if (st[0].s == "call" || st[0].s == "icall" || st[0].s == "fcmp") deps[mi].insert(defmod[st[2].s]); });
     bool c2m_ok = cfg.geti("c2mir", 1) != 0;
     std::set<size_t> remaining; for (size_t i = 0; i < nm; i++) remaining.insert(i);
     if (r.chance(1, 3)) push({"geninit"});
